@@ -170,10 +170,12 @@ def grid(tier):
             for rp, wp in [(2, 1), (1, 2), (2, 2)]:
                 big.append(({"depth": 2, "width": 1, "rp": rp, "wp": wp, "transparent": t, "read_on_resp": r}, {}))
             big.append(({"depth": 2, "width": 2, "gran": 1, "rp": 1, "wp": 2, "transparent": t, "read_on_resp": r},
-                        {"max_states": 40000}))
+                        {"max_states": 10000}))
             for mt in ("MultiReadMemory", "MultiportXORMemory", "MultiportXORILVTMemory", "MultiportOneHotILVTMemory"):
                 big.append(({"depth": 2, "width": 1, "rp": 1, "wp": 1 if mt == "MultiReadMemory" else 2, "transparent": t,
-                             "read_on_resp": r, "memtype": mt}, {"max_states": 30000}))
+                             "read_on_resp": r, "memtype": mt}, {"max_states": 10000}))
+            big.append(({"depth": 2, "width": 4, "gran": 2, "rp": 1, "wp": 1, "transparent": t, "read_on_resp": r,
+                         "idle_payload": True, "wdata": [0, 15, 6]}, {"max_states": 10000}))
     return small, big
 
 
